@@ -102,6 +102,11 @@ fn spell_name(n: &Names, rng: &mut Rng) -> Vec<u8> {
     }
 }
 
+thread_local! {
+    /// upper bound for the length of the very long items noise vectors may contain
+    pub static LONG_ITEM_MAX: std::cell::Cell<usize> = std::cell::Cell::new(1200);
+}
+
 /// Arbitrary byte-string vector biased towards the definition's own names
 pub fn noise_vector(a: &Alphabet, rng: &mut Rng, max_len: usize) -> Vec<Vec<u8>> {
     let n = rng.below(max_len + 1);
@@ -166,8 +171,9 @@ pub fn noise_vector(a: &Alphabet, rng: &mut Rng, max_len: usize) -> Vec<Vec<u8>>
                 v.push(spell_name(&h, rng));
             }
             9 if rng.chance(1, 8) => {
-                // very long cluster / word
-                let len = rng.range(1000, 4096);
+                // very long cluster / word (evaluation cost grows quadratically with it for some
+                // shapes, so the quick tier stays shorter)
+                let len = rng.range(400, LONG_ITEM_MAX.with(|m| m.get()));
                 let c = a
                     .flags
                     .iter()
